@@ -43,6 +43,7 @@ type aent struct {
 	hand  func(t *schema.Table) schema.Change // hand-built sub-change (instead of sub)
 	irr   map[string]bool                     // dialects in which the sub-change has no reverse
 	only  string                              // "" or the only dialect that knows it
+	notie bool                                // its arms in alterTable are not described: oracle only
 	// the arm(s) the sub-change becomes in alterTable, per dialect: kind letter + object key;
 	// "" = it does not reach the ALTER TABLE statement of that dialect (own statement / own group)
 	arms map[string][]string
@@ -84,8 +85,8 @@ func alterCatalogue() []aent {
 		mk("AC", dsub{k: "AC", col: dcol{name: "n1", typ: "int", null: true}}, both("o:COLUMN:n1")),
 		mk("AC2", dsub{k: "AC", col: dcol{name: "n2", typ: "text", null: true}}, both("o:COLUMN:n2")),
 		mk("DC", dsub{k: "DC", col: col("c5")}, both("o:COLUMN:c5")),
-		mk("MC", dsub{k: "MC", col: col("c2"), col2: c2n, chg: "null"}, both("o:COLUMN:c2")),
-		mk("MCt", dsub{k: "MC", col: col("c3"), col2: c3t, chg: "type"}, both("o:COLUMN:c3")),
+		mk("MC", dsub{k: "MC", col: col("c2"), col2: c2n, chg: "null"}, map[string][]string{"mysql": {"o:COLUMN:c2"}, "postgres": {"o:COLUMN-NULL:c2"}}),
+		mk("MCt", dsub{k: "MC", col: col("c3"), col2: c3t, chg: "type"}, map[string][]string{"mysql": {"o:COLUMN:c3"}, "postgres": {"o:COLUMN-TYPE:c3"}}),
 		mk("RC", dsub{k: "RC", col: col("c3"), col2: c3r}, map[string][]string{"mysql": {"o:COLUMN:c3r|c3"}}),
 		mk("AI", dsub{k: "AI", idx: didx{name: "i_new", cols: []string{"c2"}}}, map[string][]string{"mysql": {"o:INDEX:i_new"}}),
 		mk("AIu", dsub{k: "AI", idx: didx{name: "i_newu", cols: []string{"c4"}, unique: true}}, map[string][]string{"mysql": {"o:INDEX:i_newu"}}),
@@ -129,7 +130,12 @@ func alterCatalogue() []aent {
 var sqliteAlterable = map[string]bool{"AC": true, "AC2": true, "AI": true, "AIu": true, "DI": true, "RC": true, "RI": true}
 
 // objSeq: the objects a statement's clauses touch, in order, adjacent repetitions merged
-func objSeq(stmt string) ([]string, bool) {
+func objSeq(stmt string) ([]string, bool) { return objSeqK(stmt, true) }
+
+// objSeqK: fine = keep the clause kind of a PostgreSQL ALTER COLUMN (TYPE / NULL / DEFAULT / IDENTITY /
+// EXPRESSION); coarse = the column as one object (the clauses of one ModifyColumn keep their order
+// in the reverse, only the sub-changes are reversed)
+func objSeqK(stmt string, fine bool) ([]string, bool) {
 	as, ok := atomsOf(stmt)
 	if !ok {
 		return nil, false
@@ -137,7 +143,7 @@ func objSeq(stmt string) ([]string, bool) {
 	var o []string
 	for _, a := range as {
 		n := a.a
-		if a.kind == "COLUMN" {
+		if strings.HasPrefix(a.kind, "COLUMN") {
 			n = baseName(n)
 		}
 		if a.op == "R" {
@@ -146,7 +152,11 @@ func objSeq(stmt string) ([]string, bool) {
 		if a.kind == "TABLE-ATTR" {
 			n = baseName(n)
 		}
-		k := a.kind + ":" + n
+		kd := a.kind
+		if !fine && strings.HasPrefix(kd, "COLUMN-") {
+			kd = "COLUMN"
+		}
+		k := kd + ":" + n
 		if len(o) == 0 || o[len(o)-1] != k {
 			o = append(o, k)
 		}
@@ -259,6 +269,7 @@ func runAlterCase(w *out.W, id, dialect string, ents []aent) {
 		w.Violation(id, "alter-irreversible-flagged", fmt.Sprintf("the ModifyTable holds a sub-change that cannot be reversed but the plan is flagged reversible: %s | %s", desc, pt))
 	}
 	var obs []string
+	irrClause := false
 	for i, c := range plan.Changes {
 		src, isMT := c.Source.(*schema.ModifyTable)
 		if isMT && dialect != "sqlite" && len(revs[i]) > 0 && strings.HasPrefix(c.Cmd, "ALTER TABLE") {
@@ -278,8 +289,39 @@ func runAlterCase(w *out.W, id, dialect string, ents []aent) {
 				}
 			}
 		}
+		// a clause of the Cmd whose kind cannot be undone in this dialect (the harness's own table, read from
+		// the statement text): DROP EXPRESSION (postgres), a constraint without a name (mysql, postgres)
+		if dialect != "sqlite" {
+			if as, ok := atomsOf(c.Cmd); ok {
+				for _, a := range as {
+					if a.kind == "COLUMN-EXPRESSION" || a.op == "+" && a.kind == "CONSTRAINT" && a.a == "<unnamed>" {
+						irrClause = true
+						if len(revs[i]) > 0 {
+							w.Violation(id, "alter-irreversible-clause-reversed", fmt.Sprintf("the Cmd holds the clause %s, which cannot be undone, yet the change has a reverse: Cmd %q reverse %q | %s", a, trunc(c.Cmd, 300), revs[i], desc))
+						}
+						break
+					}
+				}
+			}
+		}
 		if len(revs[i]) == 0 {
 			continue
+		}
+		// a column-modifying clause of the Cmd found verbatim in the reverse: the reverse sets the state the
+		// Cmd set (every kind of the generated ModifyColumn changes the column for real)
+		if dialect != "sqlite" {
+			rc := map[string]bool{}
+			for _, r := range revs[i] {
+				for _, x := range modClauses(r) {
+					rc[x] = true
+				}
+			}
+			for _, x := range modClauses(c.Cmd) {
+				if rc[x] {
+					w.Violation(id, "reverse-restates-change", fmt.Sprintf("%s: the reverse holds the clause %q of its Cmd verbatim: it repeats the modification instead of undoing it | Cmd %q | reverse %q | %s", dialect, x, trunc(c.Cmd, 300), revs[i], desc))
+					break
+				}
+			}
 		}
 		v, msg := checkInverse(c.Cmd, revs[i])
 		w.Count("skeleton-" + v)
@@ -292,8 +334,8 @@ func runAlterCase(w *out.W, id, dialect string, ents []aent) {
 			w.Violation(id, "reverse-skeleton", fmt.Sprintf("%s: %s | Cmd %q | reverse %q | %s", dialect, msg, trunc(c.Cmd, 300), revs[i], desc))
 		case "ok":
 			if len(revs[i]) == 1 {
-				co, ok1 := objSeq(c.Cmd)
-				ro, ok2 := objSeq(revs[i][0])
+				co, ok1 := objSeqK(c.Cmd, false)
+				ro, ok2 := objSeqK(revs[i][0], false)
 				if ok1 && ok2 {
 					for l, r := 0, len(co)-1; l < r; l, r = l+1, r-1 {
 						co[l], co[r] = co[r], co[l]
@@ -304,6 +346,18 @@ func runAlterCase(w *out.W, id, dialect string, ents []aent) {
 				}
 			}
 		}
+	}
+	if irrClause {
+		w.Count("irreversible-clause:" + dialect)
+	}
+	if strings.HasPrefix(id, "k") {
+		w.Count("kinds-case:" + dialect)
+		if plan.Reversible {
+			w.Count("kinds-case-flagged:" + dialect)
+		}
+	}
+	if irrClause && plan.Reversible {
+		w.Violation(id, "alter-irreversible-flagged", fmt.Sprintf("a Cmd of the plan holds a clause that cannot be undone but the plan is flagged reversible: %s | %s", desc, pt))
 	}
 	// ---- tie: the arms that reach alterTable (mysql: one group when no ModifyIndex/ModifyForeignKey)
 	if dialect != "sqlite" {
@@ -326,7 +380,13 @@ func runAlterCase(w *out.W, id, dialect string, ents []aent) {
 				}
 			}
 		}
-		if len(arms) > 0 && seen == 1 {
+		notie := false
+		for _, e := range ents {
+			if e.notie {
+				notie = true
+			}
+		}
+		if len(arms) > 0 && seen == 1 && !notie {
 			toks := []string{dialect, fmt.Sprint(len(arms))}
 			for _, a := range arms {
 				toks = append(toks, hx(a))
@@ -346,6 +406,7 @@ func runAlterStage(w *out.W, tier string) {
 	w.Exhaust = true
 	cat := alterCatalogue()
 	n := 0
+	runKinds(w, &n)
 	for _, dialect := range []string{"mysql", "postgres", "sqlite"} {
 		var es []aent
 		for _, e := range cat {
@@ -379,6 +440,296 @@ func runAlterStage(w *out.W, tier string) {
 					n++
 					runAlterCase(w, fmt.Sprintf("a%d", n), dialect, []aent{es[i], es[j], es[k]})
 				}
+			}
+		}
+	}
+}
+
+// ---------------------------------------------------------------- change kinds inside one Modify* sub-change
+
+// subsets of size 1..3 of n elements, as bit masks
+func subsets3(n int) []int {
+	var out []int
+	for m := 1; m < 1<<n; m++ {
+		c := 0
+		for b := 0; b < n; b++ {
+			if m&(1<<b) != 0 {
+				c++
+			}
+		}
+		if c <= 3 {
+			out = append(out, m)
+		}
+	}
+	return out
+}
+
+func kindLabel(prefix string, names []string, m int) string {
+	var ks []string
+	for b, n := range names {
+		if m&(1<<b) != 0 {
+			ks = append(ks, n)
+		}
+	}
+	return prefix + "{" + strings.Join(ks, "+") + "}"
+}
+
+// pgModifyColumn: kinds T(ype) N(ull) D(efault) A(ttr: identity) G(enerated: DROP EXPRESSION) C(omment)
+func pgModifyColumn(m int, flip bool) aent {
+	names := []string{"T", "N", "D", "A", "G", "C"}
+	has := func(b int) bool { return m&(1<<b) != 0 }
+	bits := ""
+	for b := 0; b < 5; b++ {
+		if has(b) {
+			bits += "1"
+		} else {
+			bits += "0"
+		}
+	}
+	e := aent{label: kindLabel("MC", names, m), only: "postgres", arms: map[string][]string{}}
+	if flip {
+		e.label += "'"
+	}
+	if m&31 != 0 {
+		e.arms["postgres"] = []string{"m" + bits + ":c5"}
+	}
+	if has(4) {
+		e.irr = map[string]bool{"postgres": true}
+	}
+	e.hand = func(tb *schema.Table) schema.Change {
+		from := &schema.Column{Name: "c5", Type: &schema.ColumnType{Type: &schema.IntegerType{T: "integer"}, Null: !flip}}
+		to := &schema.Column{Name: "c5", Type: &schema.ColumnType{Type: &schema.IntegerType{T: "integer"}, Null: !flip}}
+		var k schema.ChangeKind
+		if has(0) {
+			to.Type.Type = &schema.IntegerType{T: "bigint"}
+			k |= schema.ChangeType
+		}
+		if has(1) {
+			to.Type.Null = flip
+			k |= schema.ChangeNull
+		}
+		if has(2) {
+			if flip {
+				from.Default = &schema.Literal{V: "7"}
+			} else {
+				to.Default = &schema.Literal{V: "7"}
+			}
+			k |= schema.ChangeDefault
+		}
+		if has(3) {
+			from.Attrs = append(from.Attrs, &postgres.Identity{Generation: "BY DEFAULT", Sequence: &postgres.Sequence{Start: 1, Increment: 1}})
+			to.Attrs = append(to.Attrs, &postgres.Identity{Generation: "ALWAYS", Sequence: &postgres.Sequence{Start: 1, Increment: 1}})
+			k |= schema.ChangeAttr
+		}
+		if has(4) {
+			from.Attrs = append(from.Attrs, &schema.GeneratedExpr{Expr: "c1 * 2", Type: "STORED"})
+			k |= schema.ChangeGenerated
+		}
+		if has(5) {
+			from.Attrs = append(from.Attrs, &schema.Comment{Text: "old"})
+			to.Attrs = append(to.Attrs, &schema.Comment{Text: "new"})
+			k |= schema.ChangeComment
+		}
+		return &schema.ModifyColumn{From: from, To: to, Change: k}
+	}
+	return e
+}
+
+// mysqlModifyColumn: kinds T N D C(omment) Charset Collate A(ttr: AUTO_INCREMENT) G(enerated STORED expression)
+func mysqlModifyColumn(m int) aent {
+	names := []string{"T", "N", "D", "C", "Charset", "Collate", "A", "G"}
+	has := func(b int) bool { return m&(1<<b) != 0 }
+	e := aent{label: kindLabel("MC", names, m), only: "mysql", arms: map[string][]string{"mysql": {"o:COLUMN:c5"}}}
+	e.hand = func(tb *schema.Table) schema.Change {
+		from := &schema.Column{Name: "c5", Type: &schema.ColumnType{Type: &schema.StringType{T: "varchar", Size: 64}, Null: true}}
+		to := &schema.Column{Name: "c5", Type: &schema.ColumnType{Type: &schema.StringType{T: "varchar", Size: 64}, Null: true}}
+		var k schema.ChangeKind
+		if has(0) {
+			to.Type.Type = &schema.StringType{T: "varchar", Size: 128}
+			k |= schema.ChangeType
+		}
+		if has(1) {
+			to.Type.Null = false
+			k |= schema.ChangeNull
+		}
+		if has(2) {
+			to.Default = &schema.Literal{V: "'x'"}
+			k |= schema.ChangeDefault
+		}
+		if has(3) {
+			to.Attrs = append(to.Attrs, &schema.Comment{Text: "new"})
+			k |= schema.ChangeComment
+		}
+		if has(4) {
+			from.Attrs = append(from.Attrs, &schema.Charset{V: "latin1"})
+			to.Attrs = append(to.Attrs, &schema.Charset{V: "utf8mb4"})
+			k |= schema.ChangeCharset
+		}
+		if has(5) {
+			from.Attrs = append(from.Attrs, &schema.Collation{V: "latin1_bin"})
+			to.Attrs = append(to.Attrs, &schema.Collation{V: "utf8mb4_bin"})
+			k |= schema.ChangeCollate
+		}
+		if has(6) {
+			to.Attrs = append(to.Attrs, &mysql.OnUpdate{A: "CURRENT_TIMESTAMP"})
+			k |= schema.ChangeAttr
+		}
+		if has(7) {
+			from.Attrs = append(from.Attrs, &schema.GeneratedExpr{Expr: "c3", Type: "STORED"})
+			to.Attrs = append(to.Attrs, &schema.GeneratedExpr{Expr: "concat(c3, 'x')", Type: "STORED"})
+			k |= schema.ChangeGenerated
+		}
+		return &schema.ModifyColumn{From: from, To: to, Change: k}
+	}
+	return e
+}
+
+// the other Modify* sub-changes: the change-kind bits they carry, From/To differing accordingly
+func otherModifies(dialect string) []aent {
+	var es []aent
+	// ModifyIndex: Unique, Parts, Comment, Attr
+	for _, m := range subsets3(4) {
+		m := m
+		e := aent{label: kindLabel("MI", []string{"Unique", "Parts", "Comment", "Attr"}, m), arms: map[string][]string{}, notie: true}
+		e.hand = func(tb *schema.Table) schema.Change {
+			c2, _ := tb.Column("c2")
+			c4, _ := tb.Column("c4")
+			from := &schema.Index{Name: "i_old", Table: tb, Parts: []*schema.IndexPart{{SeqNo: 0, C: c2}}}
+			to := &schema.Index{Name: "i_old", Table: tb, Parts: []*schema.IndexPart{{SeqNo: 0, C: c2}}}
+			var k schema.ChangeKind
+			if m&1 != 0 {
+				to.Unique = true
+				k |= schema.ChangeUnique
+			}
+			if m&2 != 0 {
+				to.Parts = append(to.Parts, &schema.IndexPart{SeqNo: 1, C: c4})
+				k |= schema.ChangeParts
+			}
+			if m&4 != 0 {
+				from.Attrs = append(from.Attrs, &schema.Comment{Text: "old idx"})
+				to.Attrs = append(to.Attrs, &schema.Comment{Text: "new idx"})
+				k |= schema.ChangeComment
+			}
+			if m&8 != 0 {
+				if dialect == "postgres" {
+					to.Attrs = append(to.Attrs, &postgres.IndexType{T: "HASH"})
+				} else {
+					to.Attrs = append(to.Attrs, &mysql.IndexType{T: "HASH"})
+				}
+				k |= schema.ChangeAttr
+			}
+			return &schema.ModifyIndex{From: from, To: to, Change: k}
+		}
+		es = append(es, e)
+	}
+	// ModifyForeignKey: RefColumn, Column, UpdateAction, DeleteAction
+	for _, m := range subsets3(4) {
+		m := m
+		e := aent{label: kindLabel("MF", []string{"RefColumn", "Column", "UpdateAction", "DeleteAction"}, m), arms: map[string][]string{}, notie: true}
+		e.hand = func(tb *schema.Table) schema.Change {
+			c4, _ := tb.Column("c4")
+			c2, _ := tb.Column("c2")
+			ref := tb.ForeignKeys[0].RefTable
+			from := &schema.ForeignKey{Symbol: "f_old", Table: tb, Columns: []*schema.Column{c4}, RefTable: ref, RefColumns: ref.Columns[:1], OnDelete: schema.Cascade}
+			to := &schema.ForeignKey{Symbol: "f_old", Table: tb, Columns: []*schema.Column{c4}, RefTable: ref, RefColumns: ref.Columns[:1], OnDelete: schema.Cascade}
+			var k schema.ChangeKind
+			if m&1 != 0 {
+				k |= schema.ChangeRefColumn
+			}
+			if m&2 != 0 {
+				to.Columns = []*schema.Column{c2}
+				k |= schema.ChangeColumn
+			}
+			if m&4 != 0 {
+				to.OnUpdate = schema.SetNull
+				k |= schema.ChangeUpdateAction
+			}
+			if m&8 != 0 {
+				to.OnDelete = schema.SetNull
+				k |= schema.ChangeDeleteAction
+			}
+			return &schema.ModifyForeignKey{From: from, To: to, Change: k}
+		}
+		es = append(es, e)
+	}
+	// ModifyPrimaryKey: Parts, Comment, Attr
+	for _, m := range subsets3(3) {
+		m := m
+		e := aent{label: kindLabel("MPK", []string{"Parts", "Comment", "Attr"}, m), arms: map[string][]string{}, notie: true}
+		e.hand = func(tb *schema.Table) schema.Change {
+			c1, _ := tb.Column("c1")
+			c2, _ := tb.Column("c2")
+			from := &schema.Index{Table: tb, Unique: true, Parts: []*schema.IndexPart{{SeqNo: 0, C: c1}}}
+			to := &schema.Index{Table: tb, Unique: true, Parts: []*schema.IndexPart{{SeqNo: 0, C: c1}}}
+			var k schema.ChangeKind
+			if m&1 != 0 {
+				to.Parts = append(to.Parts, &schema.IndexPart{SeqNo: 1, C: c2})
+				k |= schema.ChangeParts
+			}
+			if m&2 != 0 {
+				to.Attrs = append(to.Attrs, &schema.Comment{Text: "pk note"})
+				k |= schema.ChangeComment
+			}
+			if m&4 != 0 {
+				k |= schema.ChangeAttr
+			}
+			return &schema.ModifyPrimaryKey{From: from, To: to, Change: k}
+		}
+		es = append(es, e)
+	}
+	// ModifyCheck: the expression changes (the only kind both planners accept)
+	es = append(es, aent{label: "MK{Expr}", arms: map[string][]string{}, notie: true, hand: func(tb *schema.Table) schema.Change {
+		return &schema.ModifyCheck{From: &schema.Check{Name: "k_old2", Expr: "(c4 > 0)"}, To: &schema.Check{Name: "k_old2", Expr: "(c4 > 2)"}, Change: schema.ChangeAttr}
+	}})
+	return es
+}
+
+// runKinds: every non-empty subset (up to 3) of the change kinds of each Modify* sub-change, alone in the
+// ModifyTable and next to another sub-change (before and after it)
+func runKinds(w *out.W, n *int) {
+	cat := alterCatalogue()
+	pick := func(labels ...string) []aent {
+		var o []aent
+		for _, l := range labels {
+			for _, e := range cat {
+				if e.label == l {
+					o = append(o, e)
+				}
+			}
+		}
+		return o
+	}
+	companions := pick("AC", "AKn", "AKu", "DK", "AI")
+	for _, dialect := range []string{"postgres", "mysql", "sqlite"} {
+		var es []aent
+		switch dialect {
+		case "postgres":
+			for _, m := range subsets3(6) {
+				es = append(es, pgModifyColumn(m, false), pgModifyColumn(m, true))
+			}
+		case "mysql":
+			for _, m := range subsets3(8) {
+				es = append(es, mysqlModifyColumn(m))
+			}
+		case "sqlite":
+			for _, m := range subsets3(3) {
+				e := mysqlModifyColumn(m)
+				e.only = "sqlite"
+				es = append(es, e)
+			}
+		}
+		es = append(es, otherModifies(dialect)...)
+		for _, e := range es {
+			*n++
+			runAlterCase(w, fmt.Sprintf("k%d", *n), dialect, []aent{e})
+			for _, c := range companions {
+				if dialect == "sqlite" && c.label == "AKu" {
+					continue
+				}
+				*n++
+				runAlterCase(w, fmt.Sprintf("k%d", *n), dialect, []aent{c, e})
+				*n++
+				runAlterCase(w, fmt.Sprintf("k%d", *n), dialect, []aent{e, c})
 			}
 		}
 	}
